@@ -1,4 +1,4 @@
 SPECIFICATION Spec
 CONSTANTS CmaxI = 19  EminNeg = 3  Emax = 3  Family = "syn"  MaxLen = 5
-INVARIANTS SyntaxExact ValueExact
+INVARIANTS SyntaxExact ValueExact ScanAgreesWithParse
 CHECK_DEADLOCK FALSE
